@@ -29,7 +29,14 @@ ENGINE = "E7 differential"
 ANCHORS = ["asphalt.core._context:inject", "asphalt.core._context:resource"]
 SPELLINGS = ["T", "Optional[T]", "Union[T, None]", "T | None", "None | T", "Union[None, T]",
              # typing constructs that *contain* a string forward reference (the annotation itself is not a string)
-             "Optional['T']", "Union['T', None]"]
+             "Optional['T']", "Union['T', None]",
+             # typing.Annotated metadata anywhere in the annotation says nothing about the type or about optionality
+             "Annotated[T, 1]", "Optional[Annotated[T, 1]]", "Annotated[Optional[T], 1]", "Annotated[T, 1] | None"]
+
+
+def is_optional(spelling: str) -> bool:
+    return "None" in spelling or "Optional" in spelling
+
 STATES = ["static", "sync_factory", "async_factory", "awaitable_factory", "inherited_static", "inherited_factory", "missing",
           "factory_raises_notfound"]
 RULE = (
@@ -47,6 +54,8 @@ DECIDING = {
     "injected_params_compared": "injected parameters compared by identity",
     "string_annotations": "string (forward-reference) annotations",
     "pep604_annotations": "PEP 604 spellings",
+    "annotated_annotations": "annotations carrying typing.Annotated metadata (around the type, around the Optional, inside it)",
+    "calls_waiting_in_a_starting_component": "injected coroutine functions called from a starting component before a sibling published their resources (must wait like get_resource does there)",
     "optional_missing_none": "optional parameter with nothing matching (must be None)",
     "missing_raises_before_body": "missing non-optional resource (ResourceNotFound before the body runs)",
     "factory_made": "resource produced by a factory during the injected call or before it",
@@ -109,7 +118,7 @@ def gen_signature(rng: Any) -> dict[str, Any]:
         a, b = order[0], order[-1]
         a["state"] = rng.choice(["sync_factory", "async_factory"])
         b["state"] = "side_effect_of:" + a["arg"]
-        if b["spelling"] == "T":
+        if not is_optional(b["spelling"]):
             b["spelling"] = "Optional[T]"
     local_classes = rng.random() < 0.3
     if not local_classes and rng.random() < 0.2:
@@ -152,7 +161,7 @@ def build_source(sig: dict[str, Any]) -> str:
     lines = []
     if sig["future_annotations"]:
         lines.append("from __future__ import annotations")
-    lines.append("from typing import Optional, Union")
+    lines.append("from typing import Annotated, Optional, Union")
     if sig["local_classes"]:
         lines.append("def make():")
         for t in ("RA", "RB", "RC"):
@@ -302,7 +311,7 @@ async def scenario(case: dict[str, Any], out: dict[str, Any]) -> None:
         res: dict[str, Any] = {}
         for i in ordered_inj:
             T = TYPES[i["type"]]
-            optional = i["spelling"] != "T"
+            optional = is_optional(i["spelling"])
             try:
                 if sig["is_async"]:
                     res[i["arg"]] = await ctx.get_resource(T, i["name"], optional=optional) if optional else await ctx.get_resource(T, i["name"])
@@ -389,7 +398,9 @@ async def scenario(case: dict[str, Any], out: dict[str, Any]) -> None:
                 if got[a] is not vals.get(a):
                     bad("inject-differs", f"parameter {a} ({i['spelling']} of {i['type']}, name {i['name']!r}, state {i['state']}) received {got[a]!r} but the "
                                           f"explicit lookup {label} the call returns {vals.get(a)!r}")
-            if i["spelling"] != "T" and i["state"] == "missing":
+            if "Annotated" in i["spelling"]:
+                inc("annotated_annotations")
+            if is_optional(i["spelling"]) and i["state"] == "missing":
                 inc("optional_missing_none")
                 if got[a] is not None:
                     bad("inject-optional-not-none", f"optional parameter {a} with nothing matching received {got[a]!r}")
@@ -500,6 +511,61 @@ async def scenario(case: dict[str, Any], out: dict[str, Any]) -> None:
                 elif len(body_runs) > n_body:
                     bad("inject-body-ran", "the function body ran although the call was cancelled while its first injected resource was still being generated")
             slow[0] = 0.0
+    waitable = ("static", "sync_factory", "async_factory", "awaitable_factory")
+    if (sig["is_async"] and deco_cm is None and ordered_inj and not is_optional(ordered_inj[0]["spelling"])
+            and all(i["state"] in waitable for i in sig["inj"])):
+        # the context current at call time is that of a starting component: there get_resource() waits until some component
+        # has published the resource, and so does the injected call; the sibling publishes everything in one go after one
+        # virtual second, so the first (non-optional) lookup waits until then and all the others find theirs
+        from asphalt.core import Component, current_context, start_component
+
+        seen: dict[str, Any] = {}
+
+        class Caller(Component):
+            async def start(self) -> None:
+                t0 = anyio.current_time()
+                n_body = len(body_runs)
+                try:
+                    got = await target(*pos_args, **kw_args)
+                except Exception as e:
+                    seen["exc"] = e
+                    return
+                seen["waited"] = anyio.current_time() - t0
+                seen["body_ran"] = len(body_runs) > n_body
+                seen["got"] = got
+                seen["explicit"] = await explicit(current_context())
+
+        class Publisher(Component):
+            async def start(self) -> None:
+                await anyio.sleep(1.0)
+                setup(current_context(), False)
+
+        class Parent(Component):
+            def __init__(self) -> None:
+                self.add_component("caller", Caller)
+                self.add_component("publisher", Publisher)
+
+        async with Context(None):
+            try:
+                await start_component(Parent, timeout=None)
+            except Exception as e:
+                bad("inject-unexpected-exception", f"a component tree in which one component calls the injected function and its sibling publishes the "
+                                                   f"resources a second later failed to start: {describe_exc(e)}")
+            else:
+                inc("calls_waiting_in_a_starting_component")
+                if "exc" in seen:
+                    bad("inject-unexpected-exception", f"called from a starting component one virtual second before a sibling publishes the resources, the "
+                                                       f"injected call raised {describe_exc(seen['exc'])}; get_resource() waits there")
+                elif abs(seen["waited"] - 1.0) > 1e-9 or not seen["body_ran"]:
+                    bad("inject-differs", f"called from a starting component one virtual second before a sibling publishes the resources, the injected call "
+                                          f"returned after {seen['waited']} virtual seconds (body ran: {seen['body_ran']})")
+                else:
+                    exp_vals, exp_exc = seen["explicit"]
+                    for i in sig["inj"]:
+                        if exp_exc is not None or seen["got"].get(i["arg"]) is not exp_vals.get(i["arg"]):
+                            bad("inject-differs", f"in a starting component, parameter {i['arg']} received {seen['got'].get(i['arg'])!r} but the explicit lookup "
+                                                  f"returns {exp_vals.get(i['arg'])!r} (exception: {describe_exc(exp_exc) if exp_exc else None})")
+                            break
     if sig["local_classes"]:
         inc("local_classes")
     if sig.get("stacked"):
